@@ -3,7 +3,8 @@
 # unit -> template, properties it serves, minimum number of functions Verus must report verified
 # (vacuity guard: a unit that silently extracts nothing cannot pass).
 UNITS = {
-    'quorum': {'template': 'units/quorum/unit.rs', 'serves': ['C03', 'C06', 'C09'], 'min_verified': 18},
+    'quorum': {'template': 'units/quorum/unit.rs', 'serves': ['C03', 'C06', 'C09'], 'min_verified': 30},
+    'slot_state': {'template': 'units/slot_state/unit.rs', 'serves': ['C04'], 'min_verified': 48},
 }
 
 # property -> what decides it
